@@ -233,6 +233,16 @@ def part_a(ctx):
                         if inside:
                             ctx.count("partA.cut_inside_frame")
                         a.case(selected, name, stream, offset, follow, seg)
+    # a long run of requests in one segment (every one is answered), then the link goes away
+    burst = b"".join(wire.hsms_control(wire.LINKTEST_REQ, 0x440000 + i) for i in range(1100))
+    for offset in (len(burst), len(burst) - 5, 14 * 700 + 3):
+        for follow in ("peer_close", "disable", "close_reconnect"):
+            idx += 1
+            if not ctx.mine(idx):
+                continue
+            ctx.case(("A", True, "burst_1100_linktest", offset, follow, "whole"), nontrivial=True)
+            ctx.count("partA.cut_after_a_burst_of_requests")
+            a.case(True, "burst_1100_linktest", burst, offset, follow, "whole")
     if a.rig is not None:
         a.run_thread(a.rig.protocol.disable, 3.0)
     ctx.exhaustive["partA_every_cut_offset_x_state_x_followup_x_segmentation"] = True
